@@ -254,6 +254,8 @@ def py_open(rebound, img, ref, out):
         if not eq and r is not None and i < r.nblobs and not (r[i] == r[i]):
             eq = True       # control: two loads of the reference snapshot are unequal to each other (C17's business)
         res["same"].append(eq)
+    res["iter"] = [ac.hex64(s.t) for s in sa]       # container protocol: iteration and len() see the same snapshots
+    res["len"] = len(sa)
     open(out, "w").write(json.dumps(res))
 
 
@@ -308,7 +310,7 @@ C07_IMG_FACTORS = {
     "kind": ["plain", "lazy_vanish", "grow_first", "add_remove", "single_change", "variations"],
     "write": ["first_snapshot", "first_delta", "later_delta"],
     "cut": ["head", "link", "body", "END", "trailer", "complete"],
-    "entry": ["create_from_file", "with_messages", "init_from_buffer", "simulation_create_from_file", "python_class"],
+    "entry": ["create_from_file", "with_messages", "init_from_buffer", "simulation_create_from_file", "simulation_copy", "with_messages_reuse_index", "python_class"],
 }
 _LAZY = ["ias15", "whfast", "mercurius", "bs", "janus", "trace", "saba", "eos", "sei", "leapfrog"]   # order of ac.gen_history(lazy_arrays)
 
@@ -452,6 +454,12 @@ def detect_variant(c, rebound, open_exe, W):
 
 
 def _run(c, d, rebound, drv, open_exe, app_exe, W):
+    from common import REPO
+    cent, cint = ac.entry_points(REPO, ac.ENTRY_CORE_C07)
+    pyent = {k_: v_ for k_, v_ in ac.py_entry_points(REPO, cent).items()
+             if v_ or k_ in ("Simulationarchive.__iter__", "Simulationarchive.__len__", "Simulationarchive.__getitem__")}
+    elog = os.path.join(W, "entry.log")
+    ac.install_entry_trace(rebound, elog, cent, pyent)
     v, probe = detect_variant(c, rebound, open_exe, W)
     V = vstr(v)
     c.cov["source_variant"] = {"F1_fixed": v[0], "F11_fixed": v[1], "F2_fixed": v[2], "F19_fixed": v[3], "F18_particles_bitwise": v[4], "F5_varconfig_memberwise": v[5], "probe": probe}
@@ -505,8 +513,9 @@ def _run(c, d, rebound, drv, open_exe, app_exe, W):
     c.cov["restart_array_rows"] = dict(total=len(rs_all), this_run=len(rs_rows))
     triples_done = set()
     ai = 0
-    while ai < narch and time.time() - t_start < budget * 0.6:
+    while ai < narch and time.time() - t_start < budget * (0.75 if c.thorough else 0.6):
         rng = c.rng.fork()
+        from_array = bool(ik) or any(pending.values())
         if ik:
             hist = c07_archive_history(rng, *ik.pop(0))
         elif any(pending.values()):
@@ -540,7 +549,8 @@ def _run(c, d, rebound, drv, open_exe, app_exe, W):
             dims["archive_lazy_arrays:" + hist["tag"]] = dims.get("archive_lazy_arrays:" + hist["tag"], 0) + 1
         if hist["structural"] in ("reset_after_whfast", "remove_all", "shrink_zero_reappear", "lazy_arrays"):
             dims["archive:array_vanishes"] = dims.get("archive:array_vanishes", 0) + 1
-        exhaustive = c.thorough and (time.time() - t_start < exhaustive_budget)
+        # thorough: every byte offset on every third archive of the covering array and on every archive after it (time permitting)
+        exhaustive = c.thorough and (time.time() - t_start < exhaustive_budget) and (not from_array or ai % 3 == 1)
         # --- first snapshot: images are prefixes of s0
         s0 = open(os.path.join(wd, "a0.bin"), "rb").read()
         jobs = [("fresh", 0, None, s0)]
@@ -569,7 +579,7 @@ def _run(c, d, rebound, drv, open_exe, app_exe, W):
                 ks |= set(range(len(data) + 1))
                 st["exhaustive_appends"] += 1
             else:
-                for _ in range(nrand):
+                for _ in range(nrand or 24):
                     ks.add(rng.randint(0, len(data)))
             ks = sorted(ks)
             # model verdicts
@@ -677,7 +687,7 @@ def _run(c, d, rebound, drv, open_exe, app_exe, W):
             for k in sorted(bset):
                 byc.setdefault(cut_class(k, data, fresh), []).append(k)
             samp = sorted({x for lst in byc.values() for x in ([lst[0], lst[len(lst) // 2], lst[-1]] + (lst[::4] if c.thorough else []))})
-            trip = [(os.path.join(wd, "i%d.bin" % k), "-", mode) for k in samp for mode in (1, 2, 3)]
+            trip = [(os.path.join(wd, "i%d.bin" % k), "-", mode) for k in samp for mode in (1, 2, 3, 4, 5)]
             eres = run_batch(open_exe, trip, perturb=True)
             vmap = {k: view_of(r) for k, r in zip(ks, res)}
             for (ipath, _, mode), er in zip(trip, eres):
@@ -686,7 +696,7 @@ def _run(c, d, rebound, drv, open_exe, app_exe, W):
                 want_n = (0 if fresh else j) + (1 if full else 0)
                 dc = fresh and k >= len(data) - 12
                 expect = max(want_n, 1 if dc else 0)
-                name = {1: "with_messages", 2: "init_from_buffer", 3: "simulation_create_from_file"}[mode]
+                name = {1: "with_messages", 2: "init_from_buffer", 3: "simulation_create_from_file", 4: "simulation_copy", 5: "with_messages_reuse_index"}[mode]
                 dims["c_entry:" + name] = dims.get("c_entry:" + name, 0) + 1
                 if er["status"] == 0:
                     img_tracker.add(dict(integrator=hist["init"]["integrator"], kind=hist.get("c07kind"), entry=name, cut=cut_class(k, data, fresh),
@@ -697,7 +707,15 @@ def _run(c, d, rebound, drv, open_exe, app_exe, W):
                     c.violation("c-entry-died:" + name, "%s on a crash image (append %d cut %d of %d) kills the client (status %s)" % (name, j, k, len(data), er["status"]), rep)
                     continue
                 l0 = er["lines"][0]
-                if mode == 3:
+                if mode == 4:
+                    mm = re.match(r"entry 4 sim=(\w+) t=([0-9a-f]+) copy=(\w+) copy_t=([0-9a-f]+) difflen=(-?\d+)", l0)
+                    if not mm or (mm.group(1) == "ok") != (expect > 0):
+                        c.violation("c-entry:" + name, "reb_simulation_create_from_file returns %s on a crash image with %d complete snapshots (append %d cut %d)" % (l0, expect, j, k), rep)
+                    elif mm.group(1) == "ok" and (mm.group(3) != "ok" or mm.group(4) != mm.group(2)):
+                        c.violation("c-entry:" + name, "reb_simulation_copy of the simulation restored from a crash image: %s" % l0, rep)
+                    elif mm.group(1) == "ok" and int(mm.group(5)) != 0:
+                        st["copy_diff_nonempty"] = st.get("copy_diff_nonempty", 0) + 1      # copy != original: C05/C17's business
+                elif mode == 3:
                     got_ok = "sim=ok" in l0
                     if got_ok != (expect > 0):
                         c.violation("c-entry:" + name, "%s returns %s on a crash image with %d complete snapshots (append %d cut %d)" % (name, l0, expect, j, k), rep)
@@ -736,6 +754,8 @@ def _run(c, d, rebound, drv, open_exe, app_exe, W):
                         c.violation("py-lost", "Python: crash image (append %d cut %d) raises %s, %d snapshots were complete" % (j, k, pr["error"], want_n), rep)
                 else:
                     dc = fresh and k >= len(data) - 12
+                    if pr.get("len") != pr["nblobs"] or len(pr.get("iter", [])) != pr["nblobs"]:
+                        c.violation("py-count", "Python: crash image (append %d cut %d): nblobs %d, len() %s, iteration yields %d" % (j, k, pr["nblobs"], pr.get("len"), len(pr.get("iter", []))), rep)
                     if pr["nblobs"] != max(want_n, 1 if dc else 0) or not all(pr["same"]):
                         c.violation("py-count", "Python: crash image (append %d cut %d) exposes %d snapshots (same=%s), %d were complete" % (j, k, pr["nblobs"], pr["same"], want_n), rep)
             for k in ks:
@@ -765,8 +785,9 @@ def _run(c, d, rebound, drv, open_exe, app_exe, W):
     for i in range(na):
         if time.time() - t_start > budget:
             break
-        auto_restart_case(c, rebound, open_exe, c.rng.fork(), os.path.join(W, "auto%d" % i), st, dims, i)
-    auto_restart_case(c, rebound, open_exe, c.rng.fork(), os.path.join(W, "autoshort"), st, dims, 0, short=True)
+        auto_restart_case(c, rebound, open_exe, c.rng.fork(), os.path.join(W, "auto%d" % i), st, dims, i, cad_drv=drv)
+    auto_restart_case(c, rebound, open_exe, c.rng.fork(), os.path.join(W, "autoshort"), st, dims, 0, short=True, cad_drv=drv)
+    wall_restart_case(c, rebound, c.rng.fork(), os.path.join(W, "autowall"), st, dims)
     dims["restart:manual_history"] = st["restarts"] - st["auto_restarts"]
     dims["restart:chain"] = st["chains"]
     dims["restart:model_bytes_equal"] = st["restart_bytes_equal"]
@@ -787,15 +808,28 @@ def _run(c, d, rebound, drv, open_exe, app_exe, W):
             c.broken.append("restart factor pairs not covered: %s" % rp_["missing"][:12])
         if len(triples_done) < len(tri):
             c.broken.append("restart (write, cut, pattern) triples not covered: %s" % sorted(set(tri) - triples_done)[:12])
+    # ---- public entry points reaching the index builder / the repairing writer / the cadence re-arming: each must have run
+    c_seen, py_seen = ac.read_entry_trace(elog)
+    if st["images"]:
+        c_seen |= ac.harness_calls([os.path.join(ROOT, "harness", "c07_open.c")], cent)
+    if c.cov["strace"].get("appends_checked") or st["observed_order_images"]:
+        c_seen |= ac.harness_calls([os.path.join(ROOT, "harness", "c07_append.c")], cent)
+    ep_missing = sorted(set(cent) - c_seen) + sorted(set(pyent) - py_seen)
+    c.cov["entry_points"] = dict(c_extracted=len(cent), c_exercised=len(set(cent) & c_seen), python_extracted=len(pyent), python_exercised=len(set(pyent) & py_seen),
+                                 c=sorted(cent), python=sorted(pyent), not_exported_on_the_way=sorted(cint), missing=ep_missing)
+    if len(cent) < 9 or len(pyent) < 5:
+        c.corr_break("entry-point extraction found only %d C functions / %d Python methods" % (len(cent), len(pyent)))
+    if ep_missing:
+        c.broken.append("public entry point(s) reaching the crash/restart code not exercised in this run: %s" % ", ".join(ep_missing))
     c.cov["dimensions"] = dict(sorted(dims.items()))
     required = ["cut:first:body", "cut:first:END", "cut:first:trailer", "cut:first:complete", "cut:append:old-trailer", "cut:append:offset_next",
                 "cut:append:delta", "cut:append:END", "cut:append:new-trailer", "cut:append:complete", "cut:first_delta_append", "cut:later_append",
                 "reader:C_API", "reader:Python_class", "restart:manual_history", "restart:chain", "restart:auto_interval", "restart:auto_step",
-                "restart:auto_backward", "restart:auto_interval_short", "restart:observed_write_order_first_append", "restart:observed_write_order_later_append",
-                "tie:strace_write_pattern", "nofake_trailer_evaluated", "fake_trailer_replayed", "archive:array_vanishes",
+                "restart:auto_backward", "restart:auto_interval_short", "restart:auto_walltime", "restart:observed_write_order_first_append", "restart:observed_write_order_later_append",
+                "tie:strace_write_pattern", "tie:cadence_restart_model", "nofake_trailer_evaluated", "fake_trailer_replayed", "archive:array_vanishes",
                 "restart:residual_tail:zeros_link_kept", "restart:residual_tail:zeros_link_cleared", "restart:residual_tail:garbage",
                 "restart:residual_tail:zeros_long", "scale:archive>1024_cut", "c_entry:create_from_file", "c_entry:with_messages",
-                "c_entry:init_from_buffer", "c_entry:simulation_create_from_file"]
+                "c_entry:init_from_buffer", "c_entry:simulation_create_from_file", "c_entry:simulation_copy", "c_entry:with_messages_reuse_index"]
     missing = [d_ for d_ in required if not dims.get(d_)]
     c.cov["dimensions_missing"] = missing
     if missing:
@@ -1095,7 +1129,7 @@ def fake_trailer_case(c, rebound, drv, V, wd, st):
 K_DUP = "cadence:lagging-next-duplicate"
 
 
-def auto_restart_case(c, rebound, open_exe, rng, wd, st, dims, idx, short=False):
+def auto_restart_case(c, rebound, open_exe, rng, wd, st, dims, idx, short=False, cad_drv=None):
     """automatic cadence: uninterrupted run vs crash in the middle + restart (cadence state is persisted)"""
     os.makedirs(wd, exist_ok=True)
     integ = rng.choice(["whfast", "leapfrog", "saba", "eos", "janus"])
@@ -1137,6 +1171,7 @@ def auto_restart_case(c, rebound, open_exe, rng, wd, st, dims, idx, short=False)
     prev = b[:blobs[j - 1]["end"] - 4] + bytes(4)          # file before append j: last offset_next still 0
     data = b[start:end]
     open(img, "wb").write(prev[:start] + data[:k] + prev[start + k:])
+    shutil.copy(img, os.path.join(wd, "img0.bin"))
 
     def restart():
         import warnings
@@ -1149,6 +1184,49 @@ def auto_restart_case(c, rebound, open_exe, rng, wd, st, dims, idx, short=False)
         sim.integrate(tmax, exact_finish_time=0)
     rc = ac.fork_run(restart)
     st["auto_restarts"] += 1
+    # tie of the cadence-restart model (RV.Cadence.restart / restartStep, theorems c07_cadence_restart_*): a second restart
+    # on a copy of the image records the persisted cadence state and every heartbeat boundary; the model run over them must
+    # give the number of snapshots the real restart appended and the final cadence state
+    img2, tj = os.path.join(wd, "img2.bin"), os.path.join(wd, "tie.json")
+    shutil.copy(os.path.join(wd, "img0.bin"), img2)
+
+    def restart_traced():
+        import warnings
+        warnings.filterwarnings("ignore")
+        sim = rebound.Simulation(img2, snapshot=-1)
+        rec = dict(pint=ac.hex64(sim.simulationarchive_auto_interval), pnext=ac.hex64(sim.simulationarchive_next),
+                   pstep=int(sim.simulationarchive_auto_step), pnext_step=int(sim.simulationarchive_next_step), hb=[])
+        if mode == "interval":
+            sim.save_to_file(img2, interval=val)
+        else:
+            sim.save_to_file(img2, step=val)
+
+        def hb(simp):
+            rec["hb"].append((ac.hex64(simp.contents.t), int(simp.contents.steps_done)))
+        sim.heartbeat = hb
+        sim.integrate(tmax, exact_finish_time=0)
+        rec["next"] = ac.hex64(sim.simulationarchive_next)
+        rec["next_step"] = int(sim.simulationarchive_next_step)
+        open(tj, "w").write(json.dumps(rec))
+    n_img = len(ac.parse_archive(open(img2, "rb").read()))
+    if cad_drv and ac.fork_run(restart_traced) == 0 and os.path.exists(tj):
+        rec = json.load(open(tj))
+        n_after = len(ac.parse_archive(open(img2, "rb").read()))
+        if mode == "interval":
+            line = "%s %d %s %s %s %s" % ("cadrestartR" if ac.probe_cadence_variant(rebound, wd) else "cadrestart", -1 if dt < 0 else 1, rec["pint"], rec["pnext"], ac.hex64(val), " ".join(h for h, _ in rec["hb"]))
+            want_next = rec["next"]
+        else:
+            line = "cadrestartstep %d %d %d %s" % (rec["pstep"], rec["pnext_step"], val, " ".join(str(sd) for _, sd in rec["hb"]))
+            want_next = str(rec["next_step"])
+        flags, nx = run_driver(cad_drv, [line])[0].split()
+        if flags.count("1") != n_after - n_img or nx != want_next:
+            c.corr_break("cadence restart model: %d snapshots, next=%s; the real restart appended %d, next=%s (%s %s)" % (
+                flags.count("1"), nx, n_after - n_img, want_next, mode, val), dict(mode=mode, value=val, rec=rec))
+        else:
+            st["cadence_restart_model_equal"] = st.get("cadence_restart_model_equal", 0) + 1
+            dims["tie:cadence_restart_model"] = dims.get("tie:cadence_restart_model", 0) + 1
+            if flags[0] == "1":
+                st["cadence_restart_first_heartbeat_fires"] = st.get("cadence_restart_first_heartbeat_fires", 0) + 1
     c.count(("auto-restart", mode, integ, back))
     dims["restart:auto_" + mode + ("_short" if short else "")] = dims.get("restart:auto_" + mode + ("_short" if short else ""), 0) + 1
     if back:
@@ -1166,6 +1244,65 @@ def auto_restart_case(c, rebound, open_exe, rng, wd, st, dims, idx, short=False)
     else:
         st["restart_equal"] += 1
         st["restarts"] += 1
+
+
+def wall_restart_case(c, rebound, rng, wd, st, dims):
+    """wall-time cadence: crash + restart.  The clock is the machine's, so the oracle is what does not depend on it: the
+    completed snapshots survive unchanged, the archive stays readable, times never decrease, and (re-armed
+    unconditionally, simulationarchive.c:652-657, theorem c07_cadence_restart_walltime_fires) the restarted run writes a
+    snapshot at its very first heartbeat, i.e. at the time of the snapshot it was restarted from"""
+    os.makedirs(wd, exist_ok=True)
+    integ = rng.choice(["whfast", "leapfrog", "saba"])
+    parts = [ac.gen_particle(rng, star=True)] + [ac.gen_particle(rng) for _ in range(2)]
+    full, img = os.path.join(wd, "full.bin"), os.path.join(wd, "img.bin")
+    nst = rng.randint(12, 20)
+
+    def go(fn, fresh):
+        def f():
+            import warnings
+            warnings.filterwarnings("ignore")
+            if fresh:
+                sim = rebound.Simulation()
+                for p in parts:
+                    sim.add(**p)
+                sim.integrator = integ
+                sim.dt = 0.01
+            else:
+                sim = rebound.Simulation(fn, snapshot=-1)
+            sim.save_to_file(fn, walltime=1e-7)
+            sim.integrate(0.01 * nst, exact_finish_time=0)
+        return f
+    if ac.fork_run(go(full, True)) != 0 or not os.path.exists(full):
+        st["hazards"] += 1
+        return
+    b = open(full, "rb").read()
+    blobs = ac.parse_archive(b)
+    if len(blobs) < 4:
+        return
+    j = rng.randint(2, len(blobs) - 1)
+    start, end = blobs[j - 1]["end"] - 12, blobs[j]["end"]
+    k = rng.randint(0, end - start - 1)
+    prev = b[:blobs[j - 1]["end"] - 4] + bytes(4)
+    open(img, "wb").write(prev[:start] + b[start:end][:k] + prev[start + k:])
+    rc = ac.fork_run(go(img, False))
+    dims["restart:auto_walltime"] = dims.get("restart:auto_walltime", 0) + 1
+    c.count(("auto-restart", "walltime", integ, False))
+    rep = dict(integrator=integ, mode="walltime", particles=parts, crashed_blob=j, cut=k, rc=rc, steps=nst)
+    if rc != 0:
+        c.violation("auto-restart-died", "restart of a wall-time archive from a crash image kills the process (status %s)" % rc, rep)
+        return
+    ok, det = compare_archives(rebound, img, full, wd)
+    tt = [struct.unpack("<d", bytes.fromhex(x)[::-1])[0] for x in det.get("t", [[]])[0]] if det.get("t") else []
+    if det.get("error") or not det.get("n") or det["n"][0] < j or det["t"][0][:j] != det["t"][1][:j] or any(det["diff"][:j]):
+        c.violation("auto-restart-differs", "wall-time archive after crash (blob %d, cut %d) + restart: the %d completed snapshots are not all there unchanged: %s" % (
+            j, k, j, json.dumps(det)[:300]), rep)
+    elif any(tt[i + 1] < tt[i] for i in range(len(tt) - 1)):
+        c.violation("auto-restart-differs", "wall-time archive after restart: snapshot times decrease %s" % tt[:12], rep)
+    elif det["n"][0] <= j or det["t"][0][j] != det["t"][0][j - 1]:
+        c.corr_break("wall-time restart: the model (armWall, c07_cadence_restart_walltime_fires) says the first heartbeat of the restarted run writes a "
+                     "snapshot at the restart time; the real archive has %d snapshots, t[%d..%d] = %s" % (det["n"][0], j - 1, j, det["t"][0][j - 1:j + 1]), rep)
+    else:
+        st["wall_restart_ok"] = st.get("wall_restart_ok", 0) + 1
 
 
 if __name__ == "__main__":
